@@ -400,6 +400,14 @@ class AstGen:
             dd = self.pick("dict")
             if dd:
                 return ("attr", ("var", dd), r.choice(["k", "m", "zz"])) if r.random() < 0.5 else ("idx", ("var", dd), ("s", r.choice(["k", "m", "zz"])))
+        if r.random() < 0.5:
+            # an element / attribute / slice assignment standing where a value is expected: it yields the value assigned
+            dd, a = self.pick("dict"), self.pick("arr")
+            if dd and r.random() < 0.5:
+                return ("aset", dd, r.choice(["k", "m", "w"]), self.e_int(d + 1)) if r.random() < 0.5 else \
+                       ("iset", ("var", dd), ("s", r.choice(["k", "w"])), self.e_int(d + 1))
+            if a:
+                return ("iset", ("var", a), ("i", r.choice([0, 0, 1, 2, 9])), self.e_int(d + 1))
         v = self.fresh("x")
         self.vars[v] = "int"
         return ("asg", v, self.e_int(d + 1))
